@@ -12,6 +12,7 @@ LEVEL = "exploration"
 ANCHORS = ["src/pylife/materiallaws/woehlercurve.py", "src/pylife/utils/functions.py", "src/pylife/strength/fatigue.py"]
 SHARDS = {"quick": 8, "thorough": 16}
 WATCHDOG = {"quick": 900, "thorough": 3000}
+SOAK = {"thorough": ['tests/materiallaws', 'tests/strength']}      # contract soak (pv/contracts_more.py) under the repository's own tests
 REQUIRED_CLASSES = {t: ["k_2=inf", "k_2=k_1", "k_2_finite", "TN_only", "TS_only", "TN_and_TS", "no_scatter",
                         "native_probability!=0.5", "load==SD_exactly", "load_below_SD", "load_above_SD",
                         "broadcast:curves_x_loads_disjoint", "broadcast:shared_level", "cycles==ND_exactly",
